@@ -41,7 +41,7 @@ func TestC11GSites(t *testing.T) {
 		for _, ord := range C11ModOrders(h) {
 			for gi := range C11Groups {
 				g := &C11Groups[gi]
-				if g.Kind != h.Kind {
+				if g.Kind != h.Kind || (g.Kind != 't' && !g.ModOK) {
 					continue
 				}
 				p := C11RenderMod(h, ord, g, g.Control)
